@@ -229,6 +229,38 @@ pub fn oracle(ctx: &mut Ctx) {
         if ok && (off != filtered.len() || recon_all != img.data) {
             ok = false;
         }
+        // foreign-encoder stream: the same image filtered with random legal filter types per row
+        // (Up / Average / Paeth on first rows of passes included) through `PngImage::new`
+        {
+            let mut r2 = rng.fork();
+            let bad_at = if r2.chance(1, 12) { Some(r2.below(img.lines().len().max(1) as u64) as usize) } else { None };
+            let foreign = img.filtered(|n| if Some(n) == bad_at { 5 + r2.below(5) as u8 } else { r2.below(5) as u8 });
+            let z = miniz_oxide::deflate::compress_to_vec_zlib(&foreign, 1);
+            let ihdr = oxi.ihdr.clone();
+            let r = catch(|| oxipng::internal_tests::PngImage::new(ihdr, &z));
+            let ans = match &r {
+                None => "panic".to_string(),
+                Some(Ok(p)) => format!("ok {}", hex(&p.data)),
+                Some(Err(_)) => "err".to_string(),
+            };
+            let mut fimg = img.clone();
+            fimg.data = foreign;
+            ctx.line(&format!("unfilter_image {}", fimg.to_line()), &ans);
+            st.count("unfilter_image");
+            // oracle: a legal foreign stream reconstructs to the image data
+            if bad_at.is_none() {
+                match &r {
+                    Some(Ok(p)) if p.data == img.data => {}
+                    _ => st.fail(
+                        "unfilter-foreign",
+                        format!("reconstruction of a foreign file differs from the specification ({}x{} ct{} d{} il{})", img.w, img.h, img.ct, img.depth, img.il as u8),
+                        format!("{{\"filtered_image\": {}}}", jstr(&fimg.to_line())),
+                    ),
+                }
+            } else if matches!(&r, Some(Ok(_))) {
+                st.fail("illegal-filter-accepted", "a filter type above 4 was accepted".into(), format!("{{\"filtered_image\": {}}}", jstr(&fimg.to_line())));
+            }
+        }
         // correspondence with the image-level model: exact for the standard strategies; for the
         // heuristic ones the per-row choice is read back from the output and must be one the model allows
         if ok {
